@@ -573,7 +573,7 @@ if self.base_settings.allow_compression {
 }
 
 impl<B: Body> PreparedRequest<B> {
-//@@ fn src/request/mod.rs impl<B:~Body>~PreparedRequest<B> send props=C09,C10,C08,C05,C19
+//@@ fn src/request/mod.rs impl<B:~Body>~PreparedRequest<B> send props=C09,C10,C08,C05,C19,C11
 //@@ closure
 |timeout|
 //@@ =>
@@ -611,7 +611,7 @@ loop
 let info = ConnectInfo {
 //@@ with
             let ghost hop = url;
-            proof { assert(proxy == self.base_settings.proxy_settings.proxy_spec(&hop)); } // id: proxy_choice_reevaluated_for_this_hop [C10,C08]
+            proof { assert(proxy == self.base_settings.proxy_settings.proxy_spec(&hop)); } // id: proxy_choice_reevaluated_for_this_hop [C10,C08,C11]
 //@@ splice after_stmt
 let mut stream = BaseStream::connect(
 //@@ with
